@@ -313,20 +313,28 @@ def updateLoop : Nat → List CacheOp → List Nat → TC → Except Err (List N
 
 def updateFuel (root : Node) : Nat := 3 * root.size + 3
 
+/-- the beginning of `update`: `root_parents.append(&mut self.node_entries[node_map[sentinel]].parents)` —
+the parents of the sentinel entry of the last update are *moved* out -/
+def TC.takeRootParents (tc : TC) : List (Nat × Bool) × TC :=
+  match tc.sentinelKey with
+  | none => ([], tc)
+  | some k =>
+    match alGet tc.nodeMap k with
+    | none => ([], tc)
+    | some idx =>
+      match tc.entries[idx]? with
+      | none => ([], tc)   -- cannot happen: indices in node_map are valid
+      | some e => (e.parents, { tc with entries := tc.entries.set! idx { e with parents := [] } })
+
+/-- `root_entry.parents.extend(root_parents); if len > MAX_PARENTS { drain(0..len - MAX_PARENTS) }` -/
+def extendParents (e : NodeEntry) (rootParents : List (Nat × Bool)) : NodeEntry :=
+  let ps := e.parents ++ rootParents
+  { e with parents := if ps.length > Gen.treeCacheMaxParents then ps.drop (ps.length - Gen.treeCacheMaxParents) else ps }
+
 /-- `update(a, root)` -/
 def TC.update (tc : TC) (root : Node) : Except Err TC :=
-  -- root_parents: the parents of the sentinel entry of the last update are *moved* out
-  let (rootParents, tc) : List (Nat × Bool) × TC :=
-    match tc.sentinelKey with
-    | none => ([], tc)
-    | some k =>
-      match alGet tc.nodeMap k with
-      | none => ([], tc)
-      | some idx =>
-        match tc.entries[idx]? with
-        | none => ([], tc)   -- cannot happen: indices in node_map are valid (a panic would follow below)
-        | some e => (e.parents, { tc with entries := tc.entries.set! idx { e with parents := [] } })
-  match updateLoop (updateFuel root) [.traverse root] [] tc with
+  let rp := tc.takeRootParents
+  match updateLoop (updateFuel root) [.traverse root] [] rp.2 with
   | .error e => .error e
   | .ok (stack, tc) =>
     if stack.length != 1 then .error (.Panic "debug_assert_eq!(stack.len(), 1)")
@@ -339,9 +347,7 @@ def TC.update (tc : TC) (root : Node) : Except Err TC :=
         | some ri =>
           if ri != rootIdx then .error (.Panic "debug_assert_eq!(root_idx, node_map[root])")
           else
-            match modEntry tc.entries rootIdx (fun e =>
-                let ps := e.parents ++ rootParents
-                .ok { e with parents := if ps.length > Gen.treeCacheMaxParents then ps.drop (ps.length - Gen.treeCacheMaxParents) else ps }) with
+            match modEntry tc.entries rootIdx (fun e => .ok (extendParents e rp.1)) with
             | .error e => .error e
             | .ok es =>
               match tc.serializedNodes.extend es.size with
